@@ -76,6 +76,20 @@ func scenarios() []scenario {
 		{name: "S6-three-assemblers-close-reuse",
 			pre:     []pkt{seg(0, 0, syn)},
 			threads: [][]pkt{{seg(0, 0, d(0, 2, true))}, {seg(0, 0, d(2, 4, false))}, {seg(1, 0, syn), seg(1, 0, d(0, 4, false))}}},
+		// one assembler hands a stream bytes that were buffered out of order (they sit in a page)
+		// while another assembler buffers out-of-order data of ANOTHER connection: the bytes a
+		// stream is looking at during its callback must not change under it
+		{name: "S7-buffered-delivery-vs-buffering-on-another-connection",
+			pre:     []pkt{seg(0, 0, syn), seg(0, 0, d(2, 4, false)), seg(1, 0, syn)},
+			threads: [][]pkt{{seg(0, 0, d(0, 2, false))}, {seg(1, 0, d(2, 4, false)), seg(1, 0, d(1, 2, false))}}},
+		// a connection is torn down and opened again under the same key while a flusher runs
+		{name: "S9-close-and-reopen-vs-flusher",
+			pre:     []pkt{seg(0, 0, syn), seg(0, 0, d(0, 2, false))},
+			threads: [][]pkt{{seg(0, 0, tm.Event{K: tm.RST}), seg(0, 0, syn), seg(0, 0, d(0, 2, false))}, {{k: oFlushOlder}, {k: oFlushAll}}}},
+		// both directions of one established connection are fed at the same moment by two assemblers
+		{name: "S8-both-directions-of-an-established-connection",
+			pre:     []pkt{seg(0, 0, syn), seg(0, 1, syn)},
+			threads: [][]pkt{{seg(0, 0, d(0, 2, false)), seg(0, 0, d(2, 4, false))}, {seg(0, 1, d(0, 2, false)), seg(0, 1, d(2, 4, true))}}},
 	}
 }
 
@@ -120,7 +134,18 @@ func (s *stream) Reassembled(rs []tcpassembly.Reassembly) {
 		s.w.fail("data-after-completion", "Reassembled called after ReassemblyComplete")
 	}
 	s.calls++
+	var before []byte
+	for _, r := range rs {
+		before = append(before, r.Bytes...)
+	}
 	vsync.Yield("Reassembled")
+	var during []byte
+	for _, r := range rs {
+		during = append(during, r.Bytes...)
+	}
+	if string(before) != string(during) {
+		s.w.fail("bytes-change-during-callback", fmt.Sprintf("stream of %s: the bytes handed over read %q at the start of Reassembled and %q later in the same call", s.key, before, during))
+	}
 	off := keyOffset(s.key)
 	for _, r := range rs {
 		foreign := false
